@@ -82,6 +82,10 @@ func (r *receivingConnProvider) NewConnection() (net.Conn, error) {
 	// Log a nicer message when shutting down normally
 	if r.lifetime.Err() != nil {
 		r.logger.Info("Listener cancelled due to shutdown")
+		if conn != nil {
+			// Accepted just as shutdown arrived: nobody else will close this conn
+			_ = conn.Close()
+		}
 		return nil, r.lifetime.Err()
 	}
 	if err != nil {
